@@ -204,6 +204,7 @@ inductive ReToks where
   | ok (ts : List Tok)
   | error
   | unsupported
+  deriving DecidableEq, Repr
 
 def ReToks.cons (t : Tok) : ReToks → ReToks
   | .ok ts => .ok (t :: ts)
